@@ -224,9 +224,9 @@ def pFunc (d : Gen.D) : Nat → List Tok → R Expr
     match pFuncName ts with
     | .error e => .error e
     | .ok ((schema, name), r) =>
-      if up name == "CAST" then pCast d f r
-      else if up name == "EXTRACT" then pExtract d f r
-      else if up name == "IF" then pIfCall d f r
+      if schema.isNone && up name == "CAST" then pCast d f r
+      else if schema.isNone && up name == "EXTRACT" then pExtract d f r
+      else if schema.isNone && up name == "IF" then pIfCall d f r
       else pCall d f schema name r
 def pIfCall (d : Gen.D) : Nat → List Tok → R Expr
   | 0, _ => .error .fuel
